@@ -1,6 +1,7 @@
 -- Root of the `PasslibVerif` library: everything that must build.
 import PasslibVerif.Props.C06
 import PasslibVerif.Props.C09
+import PasslibVerif.Props.C11
 import PasslibVerif.Props.C12
 import PasslibVerif.Props.C13
 import PasslibVerif.Props.C14
